@@ -69,10 +69,17 @@ func (cx *Ctx) c18History(r *rng) []spec.Call {
 		case d < 60:
 			c.Monitor = spec.MonitorSpec{Role: "shared:S"}
 			sharedUsed++
-		case d < 72: // F1
+		case d < 70: // F1
 			c.Monitor = spec.MonitorSpec{Role: "record", Fault: "panic", At: r.between(1, 10)}
-		case d < 84: // F2
+		case d < 80: // F2
 			c.Monitor = spec.MonitorSpec{Role: "record", Fault: "goexit", At: r.between(1, 10)}
+		case d < 87: // F6 re-entrant Layout from inside the callback
+			in := cx.c18Call(r)
+			if r.chance(30) {
+				in = c18Probe(r)
+			}
+			in.Opts.P5 = pick(r, "", "polyline", "ortho")
+			c.Monitor = spec.MonitorSpec{Role: "record", Fault: "nested", At: r.between(1, 6), Nested: &in, NestedMon: pick(r, "record", "record", "", "same")}
 		case d < 89: // F3 empty source, with a monitor installed
 			c.Edges = [][]string{}
 			c.Monitor = spec.MonitorSpec{Role: "record"}
@@ -154,7 +161,17 @@ func (cx *Ctx) oracleC18(rs []JobResult) (bool, string, string, string) {
 			owners[name] = append(owners[name], iv{ocs[i].Invoke, ocs[i].End, i})
 		}
 	}
+	nestedOwner := map[string]bool{}
+	for _, nr := range h.Res.Nested {
+		if nr.Monitor != "" {
+			owners[nr.Monitor] = append(owners[nr.Monitor], iv{nr.Invoke, nr.End, -2 - nr.Parent})
+			nestedOwner[nr.Monitor] = true
+		}
+	}
 	endKind := func(i int) string {
+		if i < 0 {
+			return "(a re-entrant call made from a monitor callback) returned"
+		}
 		switch ocs[i].Verdict {
 		case "OK":
 			return "returned"
@@ -191,11 +208,16 @@ func (cx *Ctx) oracleC18(rs []JobResult) (bool, string, string, string) {
 		}
 		if owner >= 0 {
 			when = "after its call " + endKind(owner)
-			if ev.Call >= 0 && ev.Call != owner {
+			if owner < 0 {
+				when += fmt.Sprintf(", while the outer call %d went on", -2-owner)
+			} else if ev.Call >= 0 && ev.Call != owner {
 				when += fmt.Sprintf(", during later call %d", ev.Call)
 			}
 		}
 		key := "event-outside-call | after call " + func() string {
+			if owner <= -2 {
+				return "nested in a callback returned"
+			}
 			if owner < 0 {
 				return "unknown"
 			}
@@ -243,6 +265,9 @@ func historyText(calls []spec.Call, ocs []spec.Outcome) string {
 		}
 		if c.Monitor.Fault != "" {
 			s += fmt.Sprintf(" fault=%s@event%d", c.Monitor.Fault, c.Monitor.At)
+			if c.Monitor.Fault == "nested" {
+				s += "(inner monitor: " + map[string]string{"": "none", "record": "fresh", "same": "same"}[c.Monitor.NestedMon] + ")"
+			}
 		}
 		if c.PanicAtTick > 0 {
 			s += fmt.Sprintf(" panic@tick%d", c.PanicAtTick)
@@ -420,6 +445,8 @@ func (cx *Ctx) runC18() {
 				kind = "F1 panic in Log"
 			case c.Monitor.Fault == "goexit":
 				kind = "F2 Goexit in Log"
+			case c.Monitor.Fault == "nested":
+				kind = "F6 re-entrant Layout in Log"
 			case len(c.Edges) == 0:
 				kind = "F3 empty source"
 			case c.PanicAtTick > 0:
@@ -487,7 +514,7 @@ func (cx *Ctx) runC18() {
 		"evaluations":         len(hres),
 		"distinct_nontrivial": len(nontrivial),
 		"rule": "a case is a history: a sequence of 2-8 sequential Layout calls in one process, each with a role (no monitor | fresh recording monitor | shared monitor) and possibly a fault " +
-			"(F1 panic / F2 runtime.Goexit inside Monitor.Log at the j-th event, F3 empty source, F4 malformed edge, F5 panic at simulated tick t), followed by monitor-less probe calls on event-rich graphs. " +
+			"(F1 panic / F2 runtime.Goexit inside Monitor.Log at the j-th event, F3 empty source, F4 malformed edge, F5 panic at simulated tick t, F6 a re-entrant Layout call made from inside Monitor.Log at the j-th event, with a fresh / the same / no monitor), followed by monitor-less probe calls on event-rich graphs. " +
 			"Stage A draws histories from the seed; stage B enumerates, for a set of base calls, F1 and F2 at EVERY event position j=1..#events and F5 at 10 strata of the call's simulated time. " +
 			"Oracles over the recorded history (global event sequence numbers): every event lies strictly inside the invoke..end interval of a call its monitor was passed to; a fault-free monitored call returns the result of its monitor-less twin. " +
 			"distinct = history shape (sequence of role+fault kind+abort phase); non-trivial iff a monitored call emitted >=1 event and a later call exists, or a fault fired.",
